@@ -163,7 +163,7 @@ def static_check(pid, tier, kinds, cert, rule_kind, rule, sems="GR,CO,PR,ST,SST,
     allsegs = []
     for (sname, present, oracle, budget) in (plan or static_plan(tier)):
         afs = sets[sname]
-        if lists > 1:
+        if lists > 1 and sname != "reducible":
             afs = [a for a in afs if a["n"] <= (4 if lists >= 3 else (7 if sname == "gadgets" else 6))]
         opts = dict(sems=sems, kinds=kinds, cert=cert, present=present, oracle=oracle, budget=budget, lists=lists,
                     cap=300 if sname in ("ref3", "iso4") else (1500 if sname == "mid" else 400))   # SAT calls per query before it is declared non-terminating (legitimate maxima observed: 15 / 57 / 39)
@@ -171,6 +171,11 @@ def static_check(pid, tier, kinds, cert, rule_kind, rule, sems="GR,CO,PR,ST,SST,
             # stage extensions are not reached by the reduct: the whole components would have to be enumerated
             opts["sems"] = ",".join(x for x in sems.split(",") if x != "STG")
             opts["cap"] = 1500
+            if lists > 1:
+                # lists on frameworks of 20-300 arguments (merged components of 50+ arguments): a seeded sample of 60 lists of <= 2 arguments,
+                # half of them pairs of mutual attackers
+                opts["lists"] = 2
+                opts["listsample"] = 60
         if extra:
             opts.update(extra)
         rname = "%s_%s_%s_%s" % (pid, sname, present.replace(",", "+")[:14], oracle)
@@ -211,23 +216,53 @@ def static_check(pid, tier, kinds, cert, rule_kind, rule, sems="GR,CO,PR,ST,SST,
     return res.finish()
 
 
+def _printed_answers(pid, kind):
+    """the command-line observation point of C01 / C02 / C03: `crustabri solve -p <kind>-<sem>` and the ICCMA'23 wrapper, every encoding, problem
+    names in upper / lower / mixed case, both file formats; small frameworks judged exactly, 9-13 argument and grounded-reducible ones through the reduct"""
+    def run(res, sets):
+        thorough = res.tier == "thorough"
+        bindir = vlib.build_repo_bins()
+        bins = {"crustabri": os.path.join(bindir, "crustabri"), "iccma23": os.path.join(bindir, "crustabri_iccma23")}
+        rng = random.Random(seed() + 9)
+        invs = [{"bin": b, "file": "good", "fmt": fmt, "pclass": "valid", "kind": kind, "argc": "absent" if kind == "SE" else "valid", "enc": enc,
+                 "cert": cert, "log": "off"}
+                for (b, fmt) in (("crustabri", "iccma"), ("crustabri", "apx"), ("iccma23", "iccma"))
+                for enc in (("unset", "aux_var", "exp", "hybrid") if b == "crustabri" else ("unset",))
+                for cert in ((False, True) if b == "crustabri" else (True,))]
+        pool = [a for a in sets["ref3"] if a["n"] == 3] + [a for a in sets["shaped"] if 2 <= a["n"] <= 9] + [a for a in sets["rand"] if a["n"] <= 7] + sets["gadgets"][:40]
+        rng.shuffle(pool)
+        afs = pool[:300 if thorough else 120]
+        todo = invs * (len(afs) * (10 if thorough else 8) // len(invs) + 1)
+        t = time.time()
+        segs, used = clilib.run_all(todo, afs, res.wd, bins, seed() + 9, len(todo) // len(afs) + 1, subdir="clifiles_answers")
+        t1, st = vlib.judge("TraceStatic.tla", segs, res.wd, "cli_answers", shards=8)
+        res.add_judge("printed_answers", t1, st, only_props={pid})
+        mafs = sets["reducible"][:(60 if thorough else 15)] + afgen.random_afs(seed() + 10, 200 if thorough else 50, 9, 13)
+        todo2 = invs * (len(mafs) * (6 if thorough else 4) // len(invs) + 1)
+        segs2, used2 = clilib.run_all(todo2, mafs, res.wd, bins, seed() + 10, len(todo2) // len(mafs) + 1, sems=["GR", "CO", "PR", "ST", "SST", "ID"], subdir="clifiles_answers_mid")
+        t1, st = vlib.judge("TraceStatic.tla", segs2, res.wd, "cli_answers_mid", shards=8)
+        res.add_judge("printed_answers_medium_frameworks", t1, st, only_props={pid})
+        log("  RUN cli answers: %d + %d invocations %.1fs" % (used, used2, time.time() - t))
+    return run
+
+
 @check("C01")
 def c01(tier):
-    return static_check("C01", tier, "SE", "no", "SE",
+    return static_check("C01", tier, "SE", "no", "SE", after=_printed_answers("C01", "SE"), rule=
                         "one event per distinct (framework presentation, semantics, encoder group, outcome) over all oracle schedules; "
                         "non-trivial = non-empty extension of a framework with >= 2 attacks")
 
 
 @check("C02")
 def c02(tier):
-    return static_check("C02", tier, "DC", "both", "ACC", mc=("Range", "Compose"), rule=
+    return static_check("C02", tier, "DC", "both", "ACC", mc=("Range", "Compose"), after=_printed_answers("C02", "DC"), rule=
                         "one event per distinct (framework presentation, semantics, argument, certificate flag, outcome); "
                         "non-trivial = framework with >= 3 arguments and >= 2 attacks")
 
 
 @check("C03")
 def c03(tier):
-    return static_check("C03", tier, "DS", "both", "ACC",
+    return static_check("C03", tier, "DS", "both", "ACC", after=_printed_answers("C03", "DS"), rule=
                         "one event per distinct (framework presentation, semantics, argument, certificate flag, outcome); "
                         "non-trivial = framework with >= 3 arguments and >= 2 attacks")
 
@@ -250,6 +285,15 @@ def _printed_certificates(res, sets):
     segs, used = clilib.run_all(todo, afs, res.wd, bins, seed() + 4, len(todo) // len(afs) + 1)
     t1, st = vlib.judge("TraceStatic.tla", segs, res.wd, "cli_certificates", shards=8)
     res.add_judge("printed_certificates", t1, st, only_props={"C04"})
+    # ... and on frameworks of 10-90 arguments judged through the grounded reduct (certificates taken from a single SAT model are
+    # more often incomplete on larger frameworks); stage semantics left out there
+    mafs = sets["mid"][:(60 if thorough else 20)] + sets["reducible"][:(80 if thorough else 20)] + [a for a in sets["rand"] if a["n"] == 8][:40] + \
+        afgen.random_afs(seed() + 6, 400 if thorough else 120, 9, 13)
+    minvs = [i for i in invs if i["kind"] == "DC" and i["enc"] in ("unset", "aux_var")] * 4 + [i for i in invs if i["kind"] == "DC"] + [i for i in invs if i["kind"] == "DS"]
+    todo2 = minvs * (len(mafs) * (14 if thorough else 10) // len(minvs) + 1)
+    segs2, used2 = clilib.run_all(todo2, mafs, res.wd, bins, seed() + 5, len(todo2) // len(mafs) + 1, sems=["PR", "PR", "PR", "CO", "ST", "SST", "ID"], subdir="clifiles_mid")
+    t1, st = vlib.judge("TraceStatic.tla", segs2, res.wd, "cli_certificates_mid", shards=8)
+    res.add_judge("printed_certificates_medium_frameworks", t1, st, only_props={"C04"})
     bigsegs = clilib.run_big(clilib.big_instances(seed() + 4, 8 if thorough else 3), res.wd, bins, seed() + 4,
                              queries=(("DC", "CO"), ("DC", "CO"), ("DC", "ST"), ("DC", "PR"), ("DS", "ST"), ("DS", "ST"), ("DS", "PR"), ("DC", "SST"), ("DS", "CO")))
     t1b, stb = vlib.judge("TraceStatic.tla", bigsegs, res.wd, "cli_big_certificates", shards=min(8, len(bigsegs)))
@@ -271,7 +315,7 @@ def c07(tier):
                         "all lists of 1..3 arguments with repetition (frameworks <= 4 arguments; lists of <= 2 up to 6 arguments); non-trivial = list with >= 2 distinct arguments",
                         lists=3 if tier == "thorough" else 2,
                         plan=[("ref3", "compact,sparse", "dfs", 64), ("iso4", "compact", "dfs", 16), ("shaped", "compact", "dfs", 4), ("rand", "compact", "dfs", 4),
-                              ("gadgets", "compact", "dfs", 2)])
+                              ("gadgets", "compact", "dfs", 2), ("reducible", "compact", "real", 1)])
 
 
 def replay(path):
